@@ -44,6 +44,35 @@ Proof.
   - intros y Hy. apply H6. rewrite E. right. exact Hy.
 Qed.
 
+Lemma mark_callers_we : forall cs s x work s2 work', mark_callers s x cs work = (s2, work') ->
+  s_world s2 = s_world s /\ s_ext s2 = s_ext s.
+Proof.
+  induction cs as [|c r IH]; intros s x work s2 work' H; cbn [mark_callers] in H; [inversion H; auto|].
+  cbv zeta in H. apply IH in H. exact H.
+Qed.
+Lemma mark_callers_t_we : forall cs s x work s2 work', mark_callers_t s x cs work = (s2, work') ->
+  s_world s2 = s_world s /\ s_ext s2 = s_ext s.
+Proof.
+  induction cs as [|c r IH]; intros s x work s2 work' H; cbn [mark_callers_t] in H; [inversion H; auto|].
+  cbv zeta in H. apply IH in H. exact H.
+Qed.
+Lemma propagate_we : forall fuel s work s', propagate fuel s work = Ok s' -> s_world s' = s_world s /\ s_ext s' = s_ext s.
+Proof.
+  induction fuel as [|f IH]; intros s work s' H; [discriminate|]. cbn [propagate] in H.
+  destruct work as [|x r]; [inversion H; auto|].
+  destruct (nmem x (s_visited s)); [eapply IH; eauto|]. cbv zeta in H.
+  destruct (mark_callers (set_visited s (x :: s_visited s)) x (callers_of (set_visited s (x :: s_visited s)) x) r) as [s2 work'] eqn:Em.
+  apply mark_callers_we in Em. apply IH in H. cbn in Em. destruct Em, H. split; congruence.
+Qed.
+Lemma propagate_t_we : forall fuel s work s', propagate_t fuel s work = Ok s' -> s_world s' = s_world s /\ s_ext s' = s_ext s.
+Proof.
+  induction fuel as [|f IH]; intros s work s' H; [discriminate|]. cbn [propagate_t] in H.
+  destruct work as [|x r]; [inversion H; auto|].
+  destruct (nmem x (s_visited s)); [eapply IH; eauto|]. cbv zeta in H.
+  destruct (mark_callers_t (set_visited s (x :: s_visited s)) x (callers_of (set_visited s (x :: s_visited s)) x) r) as [s2 work'] eqn:Em.
+  apply mark_callers_t_we in Em. apply IH in H. cbn in Em. destruct Em, H. split; congruence.
+Qed.
+
 (** * unfolding equations *)
 Section Unfold.
 Variable p : program.
